@@ -216,7 +216,7 @@ pub fn main(ctx: &Ctx) -> i32 {
             return 2;
         }
     }
-    let runs: u64 = ctx.tier.pick(600, 6000);
+    let runs: u64 = ctx.tier.pick(2000, 20000);
     let nseeds: u64 = ctx.tier.pick(8, 32);
     let res = crate::core::pool::run_jobs(runs, |idx| {
         let mut out = RunOut::default();
